@@ -58,6 +58,11 @@ def cases(tier, seed):
     bin_arrays += [[0.1] * 10, [0.1] * 10 + [0.0], [0.0] + [0.7] * 3]
     for chunk in space.chunks(bin_arrays, 3):
         yield dict(kind='binary', arrays=chunk, L=3 if tier == 'quick' else 4)
+    # MANY events on FEW bins: every array of length 1..3 over a 4-letter alphabet, N in {9, 17, 33, 100} draws cycling over
+    # the whole draw alphabet (0, every cumulative boundary and its neighbours, midpoints, the top double)
+    few = [list(a) for n in (1, 2, 3) for a in itertools.product([0.0, 0.3, 0.7, 1e3], repeat=n) if any(x > 0 for x in a)]
+    for chunk in space.chunks(few, 6):
+        yield dict(kind='many', arrays=chunk, Ns=[9, 17, 33, 100])
     # structured LARGE arrays (size-dependent paths): 50..2000 bins, one draw per bin midpoint plus 0 and the top double
     for n in (50, 257, 1024, 2000):
         for pattern in range(3):
@@ -525,6 +530,47 @@ def run_inject_multi(case, failures, hsh):
     return evals, evals, evals
 
 
+def run_many(case, failures, hsh):
+    from csep.core import poisson_evaluations as pe
+    evals = 0
+    for rates in case['arrays']:
+        F = rs.exact_cdf(rates)
+        U = rs.draw_alphabet(rates)
+        allowed = {u: rs.allowed_bins(u, F, rates) for u in U}
+        for N in case['Ns']:
+            draws = [U[i % len(U)] for i in range(N)]
+            for test in ('S', 'M'):
+                fc, cat = setup(rates, test, N)
+                site = f'poisson_evaluations.{public(test).__name__}'
+                rep = dict(kind='many', arrays=[rates], Ns=[N])
+                try:
+                    with Spy(pe) as spy:
+                        res = public(test)(fc, cat, num_simulations=1, random_numbers=numpy.array([draws], dtype=float))
+                except Exception as e:
+                    failures.append(Fail(f'{site}|{type(e).__name__}|many-events-few-bins', f'{type(e).__name__}: {e} rates={rates} N={N}', rep))
+                    continue
+                evals += 1
+                out = [int(x) for x in spy.calls[0]['out']]
+                hsh.update(repr(out).encode())
+                # feasibility: every draw goes to one of its allowed bins -> per-bin counts between the forced and the possible number
+                lo = [0] * len(rates)
+                hi = [0] * len(rates)
+                for u in draws:
+                    b = allowed[u]
+                    for k in b:
+                        hi[k] += 1
+                    if len(b) == 1:
+                        lo[b[0]] += 1
+                if sum(out) != N:
+                    failures.append(Fail(f'{site}|wrong-event-count|many-events-few-bins', f'{sum(out)} for N={N} rates={rates}', rep))
+                elif any(o > 0 and r <= 0 for o, r in zip(out, rates)):
+                    failures.append(Fail(f'{site}|event-in-zero-rate-bin|many-events-few-bins', f'N={N} draws cycle over {U}: counts {out} rates {rates}', rep))
+                elif any(not (l <= o <= h_) for o, l, h_ in zip(out, lo, hi)):
+                    failures.append(Fail(f'{site}|draw-placed-outside-its-cumulative-interval|many-events-few-bins',
+                                         f'N={N} draws cycle over {U}: counts {out}, admissible per bin {list(zip(lo, hi))}, rates {rates}', rep))
+    return evals, evals, len(case['arrays'])
+
+
 def run_large(case, failures, hsh):
     from csep.core import poisson_evaluations as pe, binomial_evaluations as be, brier_evaluations as br
     n, pat = case['n'], case['pattern']
@@ -587,7 +633,7 @@ def run_case(case):
     numpy.random.seed(13579)
     k = case['kind']
     fn = {'inject': run_inject, 'inject1': run_inject1, 'ltest': run_ltest, 'ltest1': lambda c, f, h: run_ltest(dict(arrays=[c['rates']]), f, h),
-          'binary': run_binary, 'binary1': run_binary1, 'seed': run_seed, 'inject_multi': run_inject_multi, 'large': run_large}[k]
+          'binary': run_binary, 'binary1': run_binary1, 'seed': run_seed, 'inject_multi': run_inject_multi, 'large': run_large, 'many': run_many}[k]
     evals, nontriv, states = fn(case, failures, hsh)
     seen, uniq = set(), []
     for f in failures:
